@@ -212,7 +212,8 @@ def render_expr(n, mode='text', st=None):
         return 'Opt(%s)' % R(n[1]) if st.pick(2) else '(%s)?' % R(n[1])
     if k == 'rep':
         _, e, lo, hi = n
-        if st.pick(2):
+        symbolic = isinstance(lo, str) or isinstance(hi, str)
+        if not symbolic and st.pick(2):
             if (lo in (0, None)) and hi is None:
                 return 'List(%s)' % R(e)
             if lo == 1 and hi is None:
@@ -276,12 +277,9 @@ def render_expr(n, mode='text', st=None):
 
 
 def _kwbound(b):
-    # constructor form: ints are written as numbers, symbolic bounds as python strings
-    if isinstance(b, int):
-        return str(b)
-    if b.startswith('`'):
-        return repr(b[1:-1])  # List(e, max_len='n+1') -- a python expression string
-    return repr(b)
+    # the constructor form is only used for literal integer bounds
+    assert isinstance(b, int)
+    return str(b)
 
 
 def render_rule(r, mode='text', st=None):
